@@ -1013,7 +1013,12 @@ impl<'a> Interp<'a> {
             }
             Stmt::OpAssign(op, l, ty, e) => {
                 // a op= b  is  a = a op b : read a, evaluate b, apply
+                // (if evaluating b modifies a, the result depends on the unspecified order)
+                let target_before = lookup(env, &l.var).clone();
                 let rhs = ev!(e);
+                if *lookup(env, &l.var) != target_before {
+                    self.order_dependent = true;
+                }
                 let cur = match self.lval(l, env)? {
                     Ok(slot) => slot.clone(),
                     Err(fl) => return Ok(fl),
